@@ -12,7 +12,7 @@ package xheap
 //@   props C05
 //@   requires less != nil && swoF(less, initial)
 //@   modifies elems(initial)
-//@   ensures result.inner != nil && fresh(result.inner) && wfX(result) && result.inner.a == initial && result.inner.gen == 0
+//@   ensures result.inner != nil && fresh(result.inner) && wfX(result) && result.inner.a == initial && result.inner.gen == 0 && !result.inner.indexChanged.tracks
 //@   ensures mapsTo(result.inner) && result.inner.indexChanged.bn == len(initial) && result.inner.indexChanged.gone == -1
 //@   ensures forall j int {result.inner.indexChanged.base[j]} :: 0 <= j && j < len(initial) ==> result.inner.indexChanged.base[j] == old(initial[j])
 //@   ensures forall a T, b T {result.inner.lessFn(a, b)} :: result.inner.lessFn(a, b) == less(a, b)
